@@ -48,6 +48,17 @@ func vBytes(tag string, n int) []byte {
 	}
 	return b
 }
+func vEq(a, b []byte) bool {
+	if len(a) != len(b) {
+		return false
+	}
+	for i := range a {
+		if a[i] != b[i] {
+			return false
+		}
+	}
+	return true
+}
 func vAssume(c bool) {
 	if !c {
 		panic(vStop{})
